@@ -2876,7 +2876,7 @@ class Const(Subconstruct):
         return f"parse_const({self.subcon._compileparse(code)}, {repr(self.value)})"
 
     def _emitbuild(self, code):
-        if isinstance(self.value, bytes):
+        if isinstance(self.value, bytes) and isinstance(self.subcon, Bytes):
             return f"(io.write({repr(self.value)}), {repr(self.value)})[1]"
         else:
             return f"reuse({repr(self.value)}, lambda obj: {self.subcon._compilebuild(code)})"
